@@ -36,9 +36,11 @@ def gen_hilbert_output(r, ncpu=None, levelmin=None, levelmax=None, max_octs=120,
     def owner(o):
         return hilbert_ref.owner_of_centre(o["centre"], levelmax, bk)
 
+    # the output's levelmax (header, key resolution) may exceed the deepest level that is actually refined
+    tree_lmax = levelmax - 1 if (levelmax - 1 >= levelmin and r.random() < 0.5) else levelmax
     out = ramses.gen_output(r, ndim=3, ncpu=ncpu, levelmin=levelmin, levelmax=levelmax, nboundary=0, exact=True,
                             owner_fn=owner, max_octs=max_octs, with_part=False, with_sink=False,
-                            with_grav=r.random() < 0.3, with_rt=False)
+                            with_grav=r.random() < 0.3, with_rt=False, tree_levelmax=tree_lmax)
     out["bound_keys"] = [Fraction(b) for b in bk]
     out["ordering"] = "hilbert"
     return out, mode
@@ -91,6 +93,11 @@ def gen_box(r, out):
         preds.append({"var": name, "op": "lt", "value": hi * box})
     if r.random() < 0.25:
         preds.append({"var": "density", "op": "gt", "value": Fraction(r.randint(1, 200)) * out["unit_d"]})
+    deepest = max(o["level"] for o in out["octs"])
+    if deepest < out["levelmax"] and r.random() < 0.8:
+        # a level function that accepts every level present on disk (the grid does not reach the output's levelmax): the load
+        # is still the filter of the full load, but the loader works with a capped level
+        preds.append({"var": "level", "op": "le", "value": r.randint(deepest, out["levelmax"] - 1)})
     return preds, kind
 
 
